@@ -43,6 +43,14 @@ CLAIMED = {
             "symbolic execution of the real DDM/EDDM/STEPD.update with z3 against an executable specification: all outcome "
             "sequences up to N with universally quantified thresholds and arbitrary integer labels (exact floats per path), "
             "plus one inductive step from an arbitrary state in real arithmetic"),
+    "C06": ("DESIGN.md 7/C06",
+            "_sim_bounds is an uninterpreted recorded function in the update runs; in the _sim_bounds runs the Bernoulli draws "
+            "are arbitrary 0/1 vectors and np.percentile is recorded; Monte-Carlo validity set aside by the property; "
+            "parallelize=True not covered",
+            "symbolic execution of the real LinearFourRates.update with z3 (all 0/1 label pairs as solver-driven case splits, "
+            "symbolic decay factor and bounds) against a functional reference: confusion matrix, rates, conditional statistic "
+            "update, test schedule, tracked-only decisions, recs and the exact set of bounds requests (cache); argument "
+            "obligations on the real _sim_bounds"),
     "C07": ("DESIGN.md 7/C07",
             "np.histogram on symbolic data is the counting model on equally spaced edges; decision-logic runs use concrete "
             "placeholder batches with per-feature distances / bootstrap epsilon as uninterpreted non-negative functions; JS "
